@@ -420,7 +420,26 @@ func vxH17Wstat(dotu bool, faults int) {
 	failed := vxFailed(fs.log)
 	defer vxCheckErrno(rc, failed, dotu) // last, so that a wrong errno does not hide the other checks of this path
 	if rc.Type == Rerror {
-		vxReach("rerror") // the tree after a wstat that fails half-way: the statement is silent
+		// the tree after a wstat that fails half-way: the statement is silent. But every operation that was
+		// attempted, including the failing one, must be the requested change on the right object: after the
+		// rename step the object lives at the destination.
+		ra := -1
+		for i, c := range sig {
+			if c.op == "rename" && c.err == nil {
+				ra = i
+			}
+		}
+		for i, c := range sig {
+			obj := p
+			if ra >= 0 && i > ra {
+				obj = dest
+			}
+			switch c.op {
+			case "chmod", "chown", "truncate", "chtimes":
+				vxAssert(vxSamePath(c.path, obj), "failed-wstat:"+c.op+"-applied-to-the-fid's-object")
+			}
+		}
+		vxReach("rerror")
 		return
 	}
 	vxAssert(rc.Type == Rwstat, "reply-type")
